@@ -101,6 +101,7 @@ def run_process_level(prop, tier, seed, R, scripts_override=None):
         if scripts_override is None:
             gens = gen_scripts(work, PROFILE[prop], T["procs"], T["num"], seed, T["max_cmds"])
             prefix_gens = gen_scripts(work, "go", T["procs"], 1, seed + 7, 8) if prop == "C13" else None
+            rep_prefix_gens = gen_scripts(work, "repetition", T["procs"], 1, seed + 9, 10) if prop == "C13" else None
         else:
             gens = None
 
@@ -127,6 +128,21 @@ def run_process_level(prop, tier, seed, R, scripts_override=None):
                             if pre:
                                 pb = [c for c in pre[0] if c["kind"] not in ("quit", "eof")]
                                 runs.append(pb + [{"k": "C", "kind": "ucinewgame", "text": "ucinewgame"}] + body + tail)
+                        # ... and with its leading position commands removed (the new game starts with a go), fresh and
+                        # behind a prefix that ends in a game history with repeated positions + ucinewgame: nothing of that
+                        # history (repetition counts, hash keys) may reach the new game
+                        k0 = 0
+                        while k0 < len(body) and body[k0]["kind"] in ("position", "isready"):
+                            k0 += 1
+                        bare = body[k0:]
+                        if bare and rep_prefix_gens is not None:
+                            rpre = proc.load_scripts(rep_prefix_gens[i][0])
+                            if rpre:
+                                rb = [c for c in rpre[0] if c["kind"] not in ("quit", "eof")]
+                                while rb and rb[-1]["kind"] != "position":
+                                    rb.pop()
+                                runs.append(bare + tail)
+                                runs.append(rb + [{"k": "C", "kind": "ucinewgame", "text": "ucinewgame"}] + bare + tail)
                     for r in runs:
                         for e in proc.run_script(exe, r):
                             f.write(json.dumps(e) + "\n")
